@@ -78,6 +78,8 @@ pub enum Mutation {
     Duplicate,
     /// Replace the whole frame by `len` pseudo-random bytes.
     Garbage { len: u16, seed: u8 },
+    /// Replace the whole frame by these bytes (byte-level fuzz driver).
+    Raw { bytes: Vec<u8> },
     /// Arbitrary bytes after a valid Ethernet + EtherCAT header claiming `ecat_len`.
     GarbagePayload { len: u16, ecat_len: u16, seed: u8 },
     /// Add `delta` to the first datagram's index.
@@ -1337,6 +1339,9 @@ impl<'a, 'b, 's> Sim<'a, 'b, 's> {
             Mutation::Garbage { len, seed } => {
                 b = bytes_from_seed(u64::from(seed) + 77, usize::from(len) % 1601);
             }
+            Mutation::Raw { ref bytes } => {
+                b = bytes.clone();
+            }
             Mutation::GarbagePayload { len, ecat_len, seed } => {
                 let mut g = Vec::new();
 
@@ -1599,7 +1604,7 @@ impl<'a, 'b, 's> Sim<'a, 'b, 's> {
         if self.wire.is_empty() && (matches!(mutation, Mutation::Genuine | Mutation::Duplicate) || self.live_reqs().count() == 0) {
             // Nothing on the wire: garbage can still arrive
             match mutation {
-                Mutation::Garbage { .. } | Mutation::GarbagePayload { .. } => {
+                Mutation::Garbage { .. } | Mutation::GarbagePayload { .. } | Mutation::Raw { .. } => {
                     let b = self.mutate(&[0u8; 64], mutation);
 
                     self.facts.deliveries_mutated += 1;
